@@ -52,13 +52,29 @@ func VerifC11_OperandPositions() {
 		maxLen = 3
 	}
 	k := verifrt.Choose("template", len(vC11Templates))
-	x := verifrt.StringUpTo("x", maxLen)
-	for i := 0; i < len(x); i++ {
-		b := x[i]
-		ctl := verifrt.Or(verifrt.Or(b == '\f', b == '\n'), verifrt.Or(b == '\r', b == '\t'))
-		verifrt.Assume(verifrt.Or(verifrt.InRange(b, 0x20, 0x7e), ctl))
+	// the literal: arbitrary bytes up to maxLen, or one of a few longer texts
+	// that spell operator words and query syntax (data, not syntax, inside quotes)
+	words := []string{"not", "NOT x", "and", "or b", "null", "true", "in [", "sort by s", "limit none", "contains", "a\"b\\c", "datetime(", ")"}
+	var x, v string
+	if w := verifrt.Choose("x.kind", 1+len(words)); w == 0 {
+		x = verifrt.StringUpTo("x", maxLen)
+		for i := 0; i < len(x); i++ {
+			b := x[i]
+			ctl := verifrt.Or(verifrt.Or(b == '\f', b == '\n'), verifrt.Or(b == '\r', b == '\t'))
+			verifrt.Assume(verifrt.Or(verifrt.InRange(b, 0x20, 0x7e), ctl))
+		}
+		v = verifrt.StringUpTo("v", maxLen)
+	} else {
+		x = words[w-1]
+		switch verifrt.Choose("v.kind", 3) {
+		case 0:
+			v = verifrt.StringUpTo("v", maxLen)
+		case 1:
+			v = x
+		case 2:
+			v = "k" + x + "s"
+		}
 	}
-	v := verifrt.StringUpTo("v", maxLen)
 	st := newSymTab()
 	st.syms["s"] = &vSym{typ: NodeTypeString, s: v}
 	text := strings.Replace(vC11Templates[k], verifLiteralPlaceholder, verifEscapeLiteral(x), 1)
